@@ -1,4 +1,4 @@
--- PINNED by bin/pin_tables: copy of Gen/Dispatch.lean as generated from /repo at b2f58e7 — regenerate, do not edit
+-- PINNED by bin/pin_tables: copy of Gen/Dispatch.lean as generated from /repo at 36172fa — regenerate, do not edit
 namespace Ggql.Pinned
 def dispatchOrder : List String := ["resolver", "any", "reflect"]
 def opFallbackAnyName : Bool := false
